@@ -87,10 +87,10 @@ var (
 		"member-reap", "bogus", "user:deploy,bogus", "User",
 		"user:dep", "query:dep", "user:Deploy", "user:deploy:x", "query:deploy:x", "user:", "query:", "user:deploy2,query:Deploy",
 		"user:deploy,user:deploy", "*,user", "member-reap,member-leave", "user:DEPLOY", " user"}
-	c25SeqBases = []uint64{0, 0, 0, 1<<32 - 20, 1<<63 - 20, 1<<64 - 14, 1<<64 - 30}
+	c25SeqBases  = []uint64{0, 0, 0, 1<<32 - 20, 1<<63 - 20, 1<<64 - 14, 1<<64 - 30}
 	c25LogLevels = []string{"debug", "info", "INFO", "warn", "err", "trace", "bogus", ""}
-	c25Timeouts = []int64{1, 2, 3, 50, 1000, 20_000, 200_000, 1_000_000, 3_000_000, 10_000_000, 25_000_000, 50_000_000}
-	c25Fakes    = []string{"n1", "n2", "n3", "n4"}
+	c25Timeouts  = []int64{1, 2, 3, 50, 1000, 20_000, 200_000, 1_000_000, 3_000_000, 10_000_000, 25_000_000, 50_000_000}
+	c25Fakes     = []string{"n1", "n2", "n3", "n4"}
 )
 
 func genC25(t *rapid.T) c25Case {
@@ -128,6 +128,7 @@ func genC25(t *rapid.T) c25Case {
 		switch op.K {
 		case "stream":
 			op.S = rapid.SampledFrom(c25Filters).Draw(t, "filter")
+			op.B = rapid.IntRange(0, 4).Draw(t, "reuseseq") == 0
 			streams++
 		case "stop":
 			op.N = rapid.IntRange(0, 5).Draw(t, "which")
@@ -810,8 +811,25 @@ func bodyC25(c c25Case, x *vkit.Ctx) {
 			if !sh.quiesce() {
 				return
 			}
-			s.nsent++
-			seq := s.seqOf(s.nsent)
+			var seq uint64
+			reuse := false
+			if op.B {
+				// a client may use the sequence number of a stream it has stopped
+				// for a new stream
+				for _, old := range s.streams {
+					if old.closeAt >= 0 && s.bySeq[old.seq] == old {
+						seq, reuse = old.seq, true
+					}
+				}
+			}
+			if reuse {
+				delete(s.headers, seq)
+				delete(s.first, seq)
+				x.Label("stream-seq-reused-after-stop")
+			} else {
+				s.nsent++
+				seq = s.seqOf(s.nsent)
+			}
 			s.kind[seq] = "stream"
 			st := &c25Stream{seq: seq, filter: op.S, closeAt: -1}
 			s.bySeq[seq] = st
@@ -860,6 +878,18 @@ func bodyC25(c c25Case, x *vkit.Ctx) {
 				return
 			}
 			if v.Err != "" {
+				active := false
+				for _, o := range s.monOrder {
+					if o.stopSync < 0 {
+						active = true
+					}
+				}
+				if mo.rank >= 0 && !active {
+					// a documented level and no log stream on this connection yet
+					// (or none left): nothing allows the agent to refuse
+					x.Violationf("valid-monitor-refused", "connection %s: monitor request Seq %d with level %q was refused although the connection has no log stream: %q (trace: %s)", s.tag, seq, op.S, v.Err, s.trace())
+					return
+				}
 				x.Label("monitor-refused")
 				continue
 			}
